@@ -44,6 +44,7 @@ namespace bxdecay0 {
 
   void U238(i_random & prng_, event & event_, const double tcnuc_, double & tdnuc_)
   {
+    BXDECAY0_VERIF_SCOPE("scheme:U238", tcnuc_);
     double t;
     double tdlev;
     double palpha;
